@@ -1110,7 +1110,10 @@ func init() {
 	// websocket.maskBytes (unsafe word-at-a-time XOR in the library): TRUSTED model, the function RFC 6455 5.3 defines:
 	// octet i of the buffer becomes octet i XOR key[(pos+i) mod 4]; the result is the next key position.
 	models["github.com/ossrs/go-oryx-lib/websocket.maskBytes"] = func(e *Exec, st *State, fr *Frame, fn *ssa.Function, args []Value, pos token.Pos) []Outcome {
-		e.note("trusted: websocket.maskBytes (unsafe code) is modelled as the RFC 6455 5.3 masking function, not verified")
+		e.note("trusted: the octets websocket.maskBytes (unsafe word-at-a-time code) leaves in the buffer are modelled as the RFC 6455 5.3 masking function, not verified; the key position it returns is verified against its body (unsafe memory accesses abstracted)")
+		if sp := e.specs.ForFn(fn); sp != nil && !sp.Trusted && e.discovery == 0 && e.specMode == 0 && e.usedSpecs != nil {
+			e.usedSpecs[sp] = true // the returned position is a clause of its contract: verified in the dependency closure
+		}
 		key := args[0].(*ArrV)
 		kp := SignExt(args[1].(*Term), 64)
 		b := args[2].(*SliceV)
